@@ -176,7 +176,7 @@ def make_body(template, fam, info):
             if v._is_bound:
                 ch.note(info, 'variable still bound at the end')
                 return ch.VIOLATED
-        return ch.HOLDS_NONTRIVIAL if (exp and plan) else ch.HOLDS_TRIVIAL
+        return ch.HOLDS_NONTRIVIAL if (exp and (plan or fam == 'uses2')) else ch.HOLDS_TRIVIAL
     return spec, body
 
 
@@ -217,7 +217,8 @@ def units(tier, seed):
         for inside in (False, True):
             if tier == 'quick':
                 add('storage', t, 1, True, inside, 300)
-                add('storage', t, 2, False, inside, 300)
+                if not inside:
+                    add('storage', t, 2, False, inside, 300)
                 add('uses', t, 1, False, inside, 300)
             else:
                 for nbefore in (0, 1, 2):
